@@ -60,7 +60,7 @@ def generate(rng, tier, boost):
         idx = rng.randrange(nin)
         ht = hts[k % 256] if k < 256 or rng.random() < 0.3 else rng.choice([1, 2, 3, 0x81, 0x82, 0x83, 0, 4])
         amount = rng.choice([0, 1, (1 << 63) - 1, rng.getrandbits(63), rng.getrandbits(40)])
-        script = rbytes(rng, rng.choice([0, 1, 25, 252, 253, 300, rng.randrange(0, 80)] + ([70000] if big and k % 200 == 0 else [])))
+        script = rbytes(rng, rng.choice([0, 1, 25, 252, 253, 300, 520, 521, 600, 3000, 10000, rng.randrange(0, 80)] + ([70000] if big and k % 200 == 0 else [])))
         if k % 3 == 0:
             script = shaped_script(rng)
         cases.append((401, [script, t, idx, ht, amount]))
